@@ -235,6 +235,34 @@ impl Sw {
 }
 
 pub fn run(rng: &mut Rng, n: usize, rep: &mut Report) {
+    run_with(rng, n, rep, &mut None)
+}
+
+/// family `venue` (Solend part): one `vn.sdep` / `vn.swd` line per real solend_deposit / solend_withdraw of this monitor whose
+/// outcome the instruction-level model (Mfi/Model/Venue.lean: solendDeposit / solendWithdraw) speaks about
+pub fn gen(rng: &mut Rng, n: usize, out: &mut Vec<String>) {
+    let mut guard = 0;
+    while out.len() < n && guard < 200 {
+        guard += 1;
+        let mut scratch = Report::default();
+        let mut part: Option<Vec<String>> = Some(vec![]);
+        run_with(rng, 400, &mut scratch, &mut part);
+        out.extend(part.unwrap());
+    }
+    out.truncate(n);
+}
+
+fn pos_of(w: &World, acct: &Pubkey, bank: &Pubkey) -> Option<marginfi_type_crate::types::Balance> {
+    w.marginfi_account(acct).lending_account.balances.iter().find(|b| b.is_active() && b.bank_pk == *bank).cloned()
+}
+fn pos_line(x: &Option<marginfi_type_crate::types::Balance>) -> String {
+    match x {
+        Some(bal) => format!("1 {}", crate::fam_bank::Bal::from_balance(bal).line()),
+        None => "0 0 0 0 0 0 0".to_string(),
+    }
+}
+
+pub fn run_with(rng: &mut Rng, n: usize, rep: &mut Report, lines: &mut Option<Vec<String>>) {
     let mut done = 0usize;
     while done < n {
         let Some(mut k) = build(rng, rep) else { rep.bump("world_build_failed"); done += 1; continue };
@@ -269,9 +297,28 @@ pub fn run(rng: &mut Rng, n: usize, rep: &mut Report) {
                     let skew: i64 = if rng.chance(1, 5) { *rng.pick(&[-3i64, -2, -1, 1, 2, 3]) } else { 0 };
                     SOLEND_SKEW_COLLATERAL.store(skew, Ordering::SeqCst);
                     let who = if rng.chance(1, 8) { stranger } else { wallet };
+                    let p0 = pos_of(&k.w, &acct, &k.sb.bank);
+                    let flags0 = k.w.marginfi_account(&acct).account_flags;
                     let r = k.w.exec(&k.deposit_ix(u, who, amount));
                     SOLEND_SKEW_COLLATERAL.store(0, Ordering::SeqCst);
                     let exact: BigInt = if col == BigInt::from(0) || liq_w <= BigInt::from(0) { BigInt::from(amount) } else { BigInt::from(amount) * &wad * &col / &liq_w };
+                    if let (Some(l), true) = (lines.as_mut(), who == wallet && state == BankOperationalState::Operational && !stale && flags0 == 0) {
+                        if let Ok(expected) = r0.liquidity_to_collateral(amount) {
+                            let post: BigInt = if r.is_ok() { BigInt::from(obligation_amount(&k.w, &k.obligation)) } else { BigInt::from(o0) + &exact + BigInt::from(skew) };
+                            let head = format!("vn.sdep {} {} {} {} {} {} {}", crate::fam_bank::B::from_bank(&bank0).line(), bank0.last_update, pos_line(&p0), k.w.clock_ts, expected, o0, post);
+                            match &r {
+                                Ok(()) => {
+                                    let b1 = k.w.bank(&k.sb.bank);
+                                    let p1 = pos_of(&k.w, &acct, &k.sb.bank);
+                                    l.push(format!("{} => ok {} {} {} {}", head, crate::fam_bank::B::from_bank(&b1).line(), b1.last_update, pos_line(&p1), obligation_amount(&k.w, &k.obligation) as i128 - o0));
+                                }
+                                Err(e) => match e.code() {
+                                    Some(c) if c >= 6000 && (c < 6400 || c == 6412) => l.push(format!("{} => err {}", head, c)),
+                                    _ => {}
+                                },
+                            }
+                        }
+                    }
                     match r {
                         Err(e) => {
                             rep.bump("deposit_refused");
@@ -315,9 +362,36 @@ pub fn run(rng: &mut Rng, n: usize, rep: &mut Report) {
                         let a = k.w.marginfi_account(&acct);
                         a.lending_account.balances.iter().find(|b| b.is_active() && b.bank_pk == k.debt.bank).map(|b| bits(b.liability_shares)).unwrap_or(0)
                     };
+                    let p0 = pos_of(&k.w, &acct, &k.sb.bank);
+                    let flags0 = k.w.marginfi_account(&acct).account_flags;
+                    let vault0 = k.w.token_amount(&k.sb.liquidity_vault);
                     let r = k.w.exec(&k.withdraw_ix(u, who, amount, all));
                     SOLEND_SKEW_COLLATERAL.store(0, Ordering::SeqCst);
                     SOLEND_SKEW_LIQUIDITY.store(0, Ordering::SeqCst);
+                    if let (Some(l), true) = (lines.as_mut(), who == wallet && state != BankOperationalState::Paused && state != BankOperationalState::KilledByBankruptcy && !stale && flags0 == 0
+                        && (r.is_ok() || (sk_c == 0 && sk_l == 0))) {
+                        let c: u64 = if all { (sh0 >> 48) as u64 } else { amount };
+                        if let Ok(expected) = r0.collateral_to_liquidity(c) {
+                            let (ob_post, v_post): (i128, i128) = if r.is_ok() {
+                                (obligation_amount(&k.w, &k.obligation) as i128, vault0 as i128 + (sv0 as i128 - k.w.token_amount(&k.supply_vault) as i128))
+                            } else { (o0, vault0 as i128) };
+                            let head = format!("vn.swd {} {} {} {} {} {} {} {} {} {} {}", crate::fam_bank::B::from_bank(&bank0).line(), bank0.last_update, pos_line(&p0), k.w.clock_ts,
+                                amount, all as u8, expected, o0, ob_post, vault0, v_post);
+                            match &r {
+                                Ok(()) => {
+                                    let b1 = k.w.bank(&k.sb.bank);
+                                    let p1 = pos_of(&k.w, &acct, &k.sb.bank);
+                                    let p1_line = match &p1 { Some(b) => crate::fam_bank::Bal::from_balance(b).line(), None => "0 0 0 0 0 0".to_string() };
+                                    let paid = k.w.token_amount(&tk) as i128 - user0 as i128;
+                                    l.push(format!("{} => ok {} {} {} {} {}", head, crate::fam_bank::B::from_bank(&b1).line(), b1.last_update, p1_line, c, paid));
+                                }
+                                Err(e) => match e.code() {
+                                    Some(cd) if cd == 6018 || cd == 6020 || cd == 6023 => l.push(format!("{} => err {}", head, cd)),
+                                    _ => {}
+                                },
+                            }
+                        }
+                    }
                     match r {
                         Err(e) => {
                             rep.bump("withdraw_refused");
